@@ -304,8 +304,17 @@ def decompose(rng, r, cfg):
                 wraps.insert(0, ["T", ctx])
     if not wraps:
         return None
-    if rng.random() < 0.4:
-        inner["merge"] = rng.random() < 0.5  # dropped by every factory
+    if rng.random() < 0.5:
+        # flags every factory drops; made observable: a doubled slash in the inner rule string (merged or not
+        # according to the flag that survives) and the websocket flag (a websocket rule builds ws:// URLs)
+        inner["merge"] = rng.random() < 0.5
+        if cfg["merge"] and rng.random() < 0.6:
+            idxs = [i for i, t in enumerate(inner["toks"]) if t == "/"]
+            if idxs:
+                i = rng.choice(idxs)
+                inner["toks"] = inner["toks"][:i] + ["/"] + inner["toks"][i:]
+        if rng.random() < 0.4 and (inner["methods"] is None or all(m.upper() in ("GET", "HEAD", "OPTIONS") for m in inner["methods"])):
+            inner["ws"] = True
     return inner, wraps, py_expand(inner, wraps, cfg["hm"])
 
 
@@ -324,6 +333,7 @@ def real_factory(inner, wraps, cfg):
         defaults={k: py_value(v) for k, v in inner["defaults"].items()} or None,
         alias=inner["alias"],
         build_only=inner["bo"],
+        websocket=inner["ws"],
         **kw,
     )
     for w in wraps:
